@@ -315,6 +315,7 @@ def run(ctx):
         ctx.violation('C07:order:will_stop-before-started', 'a stop requested by event between the end of the starting queue '
                       'event and the delivery of mode_<name>_started makes will_stop overtake started',
                       {'job': list(jobs[i]), 'trace': traces[i], 'info': v.rejected[i]})
+    tlc.finish_diagnosis(wd, 'ModesTrace', 'ModesTrace.cfg', traces, v, skip=explained)
     for i, info in sorted(v.rejected.items()):
         if info.get('line') is None or i in explained:
             continue
